@@ -623,13 +623,138 @@ def r13_6(ctx, counts: dict[str, int]) -> RuleResult:
                                  f'positive part only: when the class also has a negated part, '
                                  f'¬negative still admits them (CharacterClass("\\D").discard("a") '
                                  f'still contains "a")'))
+    # (d) an unknown block name (XSD 1.1) stands for every character: \\p adds everything, \\P
+    # nothing. Wherever unicode_subset(…) is tried and the else-branch dispatches on p / P, the
+    # RegexError handler that accepts the unknown block must dispatch on the same test.
+    for f in sorted(model.all_functions(), key=lambda q: q.key):
+        if not f.module.name.startswith('elementpath.regex'):
+            continue
+        for tr in [x for x in walk_local(f.node) if isinstance(x, ast.Try)]:
+            if not any(isinstance(c, ast.Call) and dotted(c.func).split('.')[-1] == 'unicode_subset'
+                       for st in tr.body for c in ast.walk(st)):
+                continue
+
+            def dispatches(stmts: list) -> bool:
+                for st in stmts:
+                    for x in ast.walk(st):
+                        if isinstance(x, (ast.If, ast.IfExp)):
+                            t = stmt_text(x.test)
+                            if "'p'" in t or "\\\\p'" in t or "'P'" in t or "\\\\P'" in t:
+                                return True
+                return False
+            if not tr.orelse or not dispatches(tr.orelse):
+                continue
+            for h in tr.handlers:
+                accepts = any(not isinstance(st, ast.Raise) for st in h.body
+                              if not (isinstance(st, ast.If) and all(
+                                  isinstance(b, ast.Raise) for b in st.body) and not st.orelse))
+                if not accepts:
+                    continue
+                n += 1
+                ok = dispatches(h.body)
+                res.instances.append(f'{f.key}: unknown-block handler at L{h.lineno} dispatches '
+                                     f'on p/P={ok}')
+                if ok:
+                    res.ok()
+                else:
+                    res.fail(finding('R13.6', f, h, 'unknown block: p and P treated alike',
+                                     f'the handler that accepts an unknown block name treats '
+                                     f'\\\\p{{IsX}} and \\\\P{{IsX}} alike, while the else-branch '
+                                     f'distinguishes them: the complement of "every character" '
+                                     f'is empty ([\\\\P{{IsFoo}}] matched everything)'))
     counts['class_law_sites'] = n
     if n < 3:
         raise AnalysisError(f'only {n} representation-law sites located in CharacterClass')
     return res
 
 
+def r13_7(ctx, counts: dict[str, int]) -> RuleResult:
+    """code-point ranges are half-open: the top of Unicode is maxunicode + 1"""
+    model = ctx.model
+    res = RuleResult(
+        'R13.7', 'HALF-OPEN-RANGE-TOP',
+        'A code-point range is the pair (first, last + 1): UnicodeSubset.__contains__, '
+        'iter_code_points and the generated tables all read the second member as exclusive. The '
+        'last code point U+10FFFF is therefore in a set only through `maxunicode + 1`. In the '
+        'regex package (a) no range literal has the bare `maxunicode` as its second member, and '
+        '(b) no call passes the bare `maxunicode` for a parameter that the callee stores as the '
+        'second member of a range (one level). (`x <= maxunicode` comparisons and loop bounds '
+        'are not ranges and are not counted.)')
+    n = 0
+    mods = [m for name, m in model.modules.items() if name.startswith('elementpath.regex')]
+
+    def is_top(e: ast.AST) -> bool:
+        return isinstance(e, (ast.Name, ast.Attribute)) and dotted(e).split('.')[-1] == 'maxunicode'
+    funcs = [f for f in model.all_functions() if f.module in mods]
+    stop_params: dict[str, set[int]] = {}
+    for f in funcs:
+        ps = f.params()
+        for t in walk_local(f.node):
+            if isinstance(t, ast.Tuple) and len(t.elts) == 2 and isinstance(t.elts[1], ast.Name) \
+                    and t.elts[1].id in ps:
+                stop_params.setdefault(f.name, set()).add(ps.index(t.elts[1].id))
+    scopes = [(f.node, f) for f in funcs] + [(m.tree, None) for m in mods]
+    seen: set[int] = set()
+    for root, f in scopes:
+        it = walk_local(root) if f is not None else ast.walk(root)
+        for x in it:
+            if id(x) in seen:
+                continue
+            if isinstance(x, ast.Tuple) and len(x.elts) == 2 and isinstance(x.ctx, ast.Load):
+                seen.add(id(x))
+                if not (is_top(x.elts[1]) or (isinstance(x.elts[1], ast.BinOp)
+                                              and is_top(x.elts[1].left))):
+                    continue
+                n += 1
+                ok = not is_top(x.elts[1])
+                where = f.key if f is not None else 'module level'
+                res.instances.append(f'{where}: range `{stmt_text(x)[:40]}` exclusive top={ok}')
+                if ok:
+                    res.ok()
+                else:
+                    mod = f.module if f is not None else next(
+                        m for m in mods if any(y is x for y in ast.walk(m.tree)))
+                    res.fail(Finding('R13.7', mod.relpath, f.name if f is not None else '<module>',
+                                     f'range {stmt_text(x)[:30]}',
+                                     f'`{stmt_text(x)[:40]}` ends at the bare maxunicode: the '
+                                     f'second member of a range is exclusive, so U+10FFFF is '
+                                     f'left out (\\p{{IsUnknown}} under XSD 1.1 does not match it)',
+                                     getattr(x, 'lineno', 0)))
+            elif isinstance(x, ast.Call) and f is not None:
+                callee = dotted(x.func).split('.')[-1]
+                for i in stop_params.get(callee, ()):
+                    off = i - 1 if isinstance(x.func, ast.Attribute) and \
+                        dotted(x.func.value) == 'self' else i
+                    if 0 <= off < len(x.args) and is_top(x.args[off]):
+                        n += 1
+                        res.instances.append(f'{f.key}: `{stmt_text(x)[:50]}` passes the bare '
+                                             f'maxunicode as an exclusive stop')
+                        res.fail(finding('R13.7', f, x, f'{callee}(…, maxunicode)',
+                                         f'`{stmt_text(x)[:60]}`: {callee} stores this argument '
+                                         f'as the exclusive end of a range, so the run that ends '
+                                         f'the code space loses U+10FFFF'))
+    counts['range_tops'] = n
+    if n < 3:
+        raise AnalysisError(f'only {n} ranges reaching the top of Unicode located')
+    return res
+
+
 SHARED_TABLE_CALLS = {'unicode_category', 'unicode_block', 'unicode_subset'}
+CACHING_DECORATORS = {'lazy_subset', 'lru_cache', 'cache', 'cached_property'}
+
+
+def cached_factories(model) -> set[str]:
+    """names of regex-package functions whose result is memoised by a decorator: every caller
+    receives the same object"""
+    out = set()
+    for f in model.all_functions():
+        if not f.module.name.startswith('elementpath.regex'):
+            continue
+        for d in f.node.decorator_list:
+            name = dotted(d.func if isinstance(d, ast.Call) else d).split('.')[-1]
+            if name in CACHING_DECORATORS:
+                out.add(f.name)
+    return out
 
 
 def r13_4(ctx, counts: dict[str, int]) -> RuleResult:
@@ -646,10 +771,12 @@ def r13_4(ctx, counts: dict[str, int]) -> RuleResult:
         'instance edits the installed table for the rest of the process.')
     n = 0
 
+    shared_calls = SHARED_TABLE_CALLS | cached_factories(model)
+
     def _shared_arg(e: ast.expr, local_escapes: set[str]) -> bool:
         if isinstance(e, ast.Call):
             d = dotted(e.func).split('.')[-1]
-            if d in SHARED_TABLE_CALLS:
+            if d in shared_calls:
                 return True
             if isinstance(e.func, ast.Name) and e.func.id in local_escapes and not e.args:
                 return True
@@ -693,7 +820,7 @@ def r13_4(ctx, counts: dict[str, int]) -> RuleResult:
                 return e.id in shared
             if isinstance(e, ast.Call):
                 d = dotted(e.func).split('.')[-1]
-                if d in SHARED_TABLE_CALLS:
+                if d in shared_calls:
                     return True
                 # value() where value = CHARACTER_ESCAPES[...]
                 if isinstance(e.func, ast.Name) and e.func.id in escapes and not e.args:
@@ -742,7 +869,7 @@ def r13_4(ctx, counts: dict[str, int]) -> RuleResult:
 def run(ctx) -> dict:
     counts: dict[str, int] = {}
     results = [r13_1(ctx, counts), r13_2(ctx, counts), r13_3(ctx, counts), r13_4(ctx, counts),
-               r13_6(ctx, counts)]
+               r13_6(ctx, counts), r13_7(ctx, counts)]
     # the run-length builders of the category tables (fallback for Unicode versions without a
     # generated table, and the UnicodeData.txt loader) treat major and minor categories with
     # cloned blocks: the clones must be consistent
